@@ -392,7 +392,7 @@ class Engine:
     """Symbolic interpreter + path explorer."""
 
     MAX_PATHS = 4000
-    INLINE_PACKAGES = ('stone', 'spec', 'contracts', 'pyvc')
+    INLINE_PACKAGES = ('stone', 'spec', 'contracts', 'pyvc', 'lemmas')
     TIME_BUDGET = 300
     MAX_DEPTH = 14
 
@@ -1812,13 +1812,13 @@ def reads_of(fn, _seen=None):
             base = n.value
             if isinstance(base, ast.Name) and isinstance(g.get(base.id), types.ModuleType):
                 tgt = getattr(g[base.id], n.attr, None)
-                if isinstance(tgt, types.FunctionType) and (tgt.__module__ or '').split('.')[0] in ('spec', 'contracts'):
+                if isinstance(tgt, types.FunctionType) and (tgt.__module__ or '').split('.')[0] in ('spec', 'contracts', 'lemmas'):
                     out |= reads_of(tgt, seen)
                 continue
             out.add(n.attr)
         elif isinstance(n, ast.Name) and isinstance(n.ctx, ast.Load):
             tgt = g.get(n.id)
-            if isinstance(tgt, types.FunctionType) and (tgt.__module__ or '').split('.')[0] in ('spec', 'contracts'):
+            if isinstance(tgt, types.FunctionType) and (tgt.__module__ or '').split('.')[0] in ('spec', 'contracts', 'lemmas'):
                 out |= reads_of(tgt, seen)
         elif isinstance(n, ast.Call) and isinstance(n.func, ast.Name) and n.func.id in ('getattr', 'hasattr'):
             out.add('*')
